@@ -381,6 +381,18 @@ def run_contract(con, both=False):
         out["status"] = "unsupported"
         out["error"] = str(e)
         out["functions"] = dict(engine.FUNCTIONS_SEEN)
+        if con.replay is not None:
+            # BOUNDED stand-in: the function left the generator's subset; search the contract's systematic native inputs
+            rec = {"name": "%s.bounded_standin" % con.name, "base": "%s.bounded_standin" % con.name, "kind": "bounded", "backend": "native-bounded",
+                   "time": 0, "path": -1, "info": {"why": "contract outside the supported subset: %s" % e}}
+            try:
+                rr = con.replay({}, rec)
+            except Exception:
+                rr = {"confirmed": False, "detail": "replay crashed: " + traceback.format_exc()[-800:]}
+            rec["status"] = "refuted" if rr.get("confirmed") else "discharged"
+            rec["replay"] = jsonable(rr)
+            rec["model"] = None
+            out["obligations"].append(rec)
         out["wall_s"] = time.time() - t0
         return out
     except ContractError as e:
